@@ -125,7 +125,7 @@ struct ProfileSpec {
 };
 
 inline const std::vector<std::string> &baseLabels() {
-    static const std::vector<std::string> v = {"none", "int", "unsigned", "double", "char", "string", "struct"};
+    static const std::vector<std::string> v = {"none", "int", "unsigned", "double", "char", "string", "struct", "empty"};
     return v;
 }
 inline const std::vector<std::string> &binLabels() {
